@@ -93,16 +93,20 @@ class LineObserver:
     the planned indices.  This is exactly the view a second caller thread would
     have if the interpreter handed over the GIL at that line."""
 
-    def __init__(self, points, callback):
+    def __init__(self, points, callback, max_lines=None, on_budget=None):
         self.points = set(points)
         self.callback = callback
         self.count = 0
         self.fired = 0
         self._busy = False
+        self.max_lines = max_lines      # deterministic step budget: raise on_budget() after this many line events
+        self.on_budget = on_budget
 
     def _local(self, frame, event, arg):
         if event == 'line' and not self._busy:
             self.count += 1
+            if self.max_lines is not None and self.count > self.max_lines:
+                raise self.on_budget()
             if self.count in self.points:
                 self._busy = True
                 try:
